@@ -209,6 +209,46 @@ Theorem group_edges_content : forall ix es key,
   content (group_edges ix es) key = map (etriple ix) (filter (fun e => gkey_eqb (ekey ix e) key) es).
 Proof. intros. apply (group_fold_content ix es [] key). constructor. Qed.
 
+(* D46: the alignment rests on every edge carrying every grouped key.  Without the setdefault the fold keeps the
+   lists aligned exactly when every edge has a weight entry; the repaired code is the raw fold after set_default. *)
+Lemma add_group_raw_some : forall l key w s t, add_group_raw l key (Some w) s t = add_group l key w s t.
+Proof.
+  induction l as [|g l IH]; intros; cbn [add_group_raw add_group olist]; [reflexivity|].
+  destruct (gkey_eqb (gk g) key); [reflexivity|]. rewrite IH. reflexivity.
+Qed.
+
+Lemma group_raw_fold : forall ix es l, (forall e, In e es -> ewo e <> None) ->
+  fold_left (group_step_raw ix) es l = fold_left (group_step ix) es l.
+Proof.
+  induction es as [|e es IH]; intros l H; cbn [fold_left]; [reflexivity|].
+  assert (E : group_step_raw ix l e = group_step ix l e).
+  { unfold group_step_raw, group_step, ew. destruct (ewo e) as [w|] eqn:W.
+    - apply add_group_raw_some.
+    - exfalso. apply (H e); [left; reflexivity|exact W]. }
+  rewrite E. apply IH. intros e' He'. apply H. right. exact He'.
+Qed.
+
+Theorem group_raw_aligned : forall ix es, (forall e, In e es -> ewo e <> None) -> Forall aligned (group_edges_raw ix es).
+Proof.
+  intros ix es H. unfold group_edges_raw. rewrite group_raw_fold by exact H. apply group_edges_aligned.
+Qed.
+
+Theorem group_edges_is_raw_after_setdefault : forall ix es,
+  group_edges ix es = group_edges_raw ix (map set_default es).
+Proof.
+  intros ix es. unfold group_edges_raw. rewrite group_raw_fold.
+  - unfold group_edges. generalize (@nil grp). induction es as [|e es IH]; intros l; cbn [map fold_left]; [reflexivity|].
+    rewrite <- IH. f_equal.
+  - intros e He. apply in_map_iff in He as (e0 & <- & _). cbn. discriminate.
+Qed.
+
+(* without the hypothesis the lists get out of step: a weighted edge followed by a weightless one in the same group *)
+Lemma group_raw_unaligned_witness : exists ix es, ~ Forall aligned (group_edges_raw ix es).
+Proof.
+  exists (fun n => (0%nat, n)), [Edge 0 1 (Some (mkq 2 1)) false; Edge 1 1 None false].
+  intros H. vm_compute in H. inversion H as [|? ? [A _] _]. cbn in A. discriminate.
+Qed.
+
 (* ------------------------------------------------------------------------------------------ 3. dot / indexed = edge sum *)
 (* Spec of one contribution: sum over the list of (w, s, t) with t = u *)
 Fixpoint tsum (tr : list triple) (sval : nat -> Qc) (u : nat) : Qc :=
@@ -555,7 +595,7 @@ Definition clsG : cls := Cls [Mono (q 1) 0 0 1; Mono (q (-1)) 1 0 0; Mono (q 1) 
 Definition w_d14 : circuit :=
   Circ [clsA (q 7); clsB; clsC]
        [Node 0 (q 1); Node 0 (q 1); Node 0 (q 1); Node 1 (mkq 1 2); Node 2 (q 1)]
-       [Edge 3 0 (q 2) false; Edge 4 1 (q 3) false].
+       [Edge 3 0 (Some (q 2)) false; Edge 4 1 (Some (q 3)) false].
 Definition st_d14 : list Qc := [q 1; q 2; q 3; mkq 1 2; q (-1)].
 
 Lemma refuted_default :
@@ -569,7 +609,7 @@ Proof. witness. Qed.
 
 (* D3 (corpus/C04/D03_two_source_vars.json): n0/x and n1/m of one class into n2/r *)
 Definition w_d03 : circuit :=
-  Circ [clsG; clsC] [Node 0 (q 1); Node 0 (q 3); Node 1 (q 1)] [Edge 0 2 (q 1) false; Edge 1 2 (q 1) true].
+  Circ [clsG; clsC] [Node 0 (q 1); Node 0 (q 3); Node 1 (q 1)] [Edge 0 2 (Some (q 1)) false; Edge 1 2 (Some (q 1)) true].
 Definition st_d03 : list Qc := [q 1; q 2; q 5].
 
 Lemma refuted_source_var :
@@ -589,7 +629,7 @@ Proof. witness. Qed.
 (* D32 (corpus/C04/D32_scalar_fanout.json): one node of a single-unit class to 10 nodes of one class *)
 Definition w_d32 : circuit :=
   Circ [clsA 0; clsB] (Node 1 (mkq 1 2) :: repeat (Node 0 (q 1)) 10)
-       (map (fun i => Edge 0 (S i) (q (Z.of_nat (S i))) false) (seq 0 10)).
+       (map (fun i => Edge 0 (S i) (Some (q (Z.of_nat (S i)))) false) (seq 0 10)).
 Definition st_d32 : list Qc := map (fun i => q (Z.of_nat i)) (seq 0 11).
 Lemma err_scalar_fanout :
   wf w_d32 = true /\ no_scalar_fanout w_d32 = false /\ impl true w_d32 st_d32 = None /\
@@ -613,12 +653,12 @@ Definition guarded_statement : Prop := forall c st, wf c = true -> guard c = tru
   impl true c st = Some (spec c st) /\ impl false c st = Some (spec c st).
 
 (* non-vacuity: a circuit inside all guards with two classes, merged units, fan-in from two classes, parallel edges,
-   a self-connection and an algebraic source; Impl (both modes) = Spec *)
+   a self-connection, an algebraic source and edges without a weight entry (one after a weighted edge of its group); Impl (both modes) = Spec *)
 Definition w_ok : circuit :=
   Circ [clsA 0; clsG]
        [Node 0 (q 1); Node 1 (mkq 1 2); Node 0 (q 2); Node 1 (q 3); Node 0 (mkq 3 2)]
-       [Edge 1 0 (q 2) true; Edge 3 0 (mkq 1 2) true; Edge 1 0 (q 1) true; Edge 0 2 (q (-1)) false; Edge 2 2 (q 3) false;
-        Edge 4 1 (q 1) false; Edge 3 3 (q 2) true; Edge 2 4 (mkq 1 4) false; Edge 1 4 (q 5) true; Edge 0 3 (q 1) false].
+       [Edge 1 0 (Some (q 2)) true; Edge 3 0 (Some (mkq 1 2)) true; Edge 1 0 None true; Edge 0 2 (Some (q (-1))) false; Edge 2 2 (Some (q 3)) false;
+        Edge 4 1 (Some (q 1)) false; Edge 3 3 (Some (q 2)) true; Edge 2 4 (Some (mkq 1 4)) false; Edge 1 4 (Some (q 5)) true; Edge 0 3 None false].
 Definition st_ok : list Qc := [q 1; mkq (-1) 2; q 2; mkq 3 4; q (-3)].
 Lemma nonvacuous :
   wf w_ok = true /\ guard w_ok = true /\
